@@ -226,7 +226,8 @@ fn seq_fuzz() {
     if i % of != shard {
       continue;
     }
-    let (case, run) = fuzz::fuzz_case(seed.wrapping_mul(1_000_003).wrapping_add(i), max_stims, ill);
+    let hot = arg("--hot").is_some();
+    let (case, run) = if hot { fuzz::fuzz_hot_case(seed.wrapping_mul(1_000_003).wrapping_add(i)) } else { fuzz::fuzz_case(seed.wrapping_mul(1_000_003).wrapping_add(i), max_stims, ill) };
     // values outside the integer-coding domain (nested encodings) are not recorded: TLC integers are 32 bit
     if run.stims.iter().any(|s| s.obs.iter().any(|e| e.v.abs() > 10_000_000 && e.v < term::OBS_BASE)) {
       continue;
